@@ -76,7 +76,7 @@ def handle (op : String) (j : Json) : Except String Json := do
       let sp := exports.map (fun o => if o.fromM.isNone && o.toM.isNone then jexcept jstr (KM.C10T.specExportA o sk tk) else Json.null)
       -- C08: the specification of a later excerpt on the core where no spine path above it is split or joined (KernModel.Spec.Excerpt;
       -- theorem C08_excerpt_spec); null outside that core
-      let sp08 := exports.map (fun o => match KM.C08R.specExcerpt d o with | some r => jexcept jstr r | none => Json.null)
+      let sp08 := exports.map (fun o => match KM.C08R.specExcerpt d o with | some r => Json.mkObj [("ok", jstr r)] | none => Json.null)
       pure (Json.mkObj [("import", Json.mkObj [("ok", if wantTree then jdoc d else Json.mkObj [("starts", jnats d.starts),
           ("errors", Json.arr (d.errors.map (fun (l, t) => Json.arr #[Json.num (JsonNumber.fromNat l), jstr t])).toArray),
           ("n_stages", Json.num (JsonNumber.fromNat d.stages.length))])]),
